@@ -117,7 +117,8 @@ ENTRIES = {
             "conditions, so every combination of branch outcomes occurs for every tree; the inferred (tag, object) multiset "
             "must equal a direct transcription of the statement. A two-variable variant checks that conclusions are built "
             "from the binding that triggered them; every tree with <=4 (thorough 5) branches is also written with bare boolean "
-            "attributes and Predicates as conditions (five styles).",
+            "attributes and Predicates as conditions (eight styles), in two `with query:` blocks, and - up to 5 (thorough 6) "
+            "branches - with the refinement of every block written after its first / after all follow-ups.",
             "Shapes the statement does not define are excluded (two refinements in one block, next_rule inside a refinement or "
             "alternative block, an alternative written after a next_rule in the same block).",
             "DESIGN.md section 3 C08"),
